@@ -94,7 +94,7 @@ def scanEscape (idc : Nat → Bool) (inClass : Bool) (inp : List Nat) (st : St) 
     else if c = 36 ∨ !isIdentifierPart idc c then (st.emit [92, c], cs)
     else (st.emit [c], cs)
 
-/-- regexp.go:116 scanBracket (after the `[` has been passed) -/
+/-- regexp.go:134 the loop of scanBracket (after the `[` has been passed) -/
 def scanBracket (idc : Nat → Bool) : Nat → List Nat → St → St × List Nat
   | 0, _, st => (st.bad, [])
   | _ + 1, [], st => (st.bad, [])                                  -- Unterminated character class
@@ -104,6 +104,41 @@ def scanBracket (idc : Nat → Bool) : Nat → List Nat → St → St × List Na
       let (st', rest) := scanEscape idc true cs st
       scanBracket idc n rest st'
     else scanBracket idc n cs (st.emit [c])
+
+/-- regexp.go scanRepeatCount, first inner loop: drop every `0` that is followed by a digit -/
+def nextIsDigit : List Nat → Bool
+  | d :: _ => isDigitC d
+  | [] => false
+
+def stripZeros : List Nat → List Nat
+  | [] => []
+  | c :: cs => if c = 48 ∧ nextIsDigit cs = true then stripZeros cs else c :: cs
+
+/-- second inner loop: pass the digits; (passed, rest) -/
+def passDigits : List Nat → List Nat × List Nat
+  | [] => ([], [])
+  | c :: cs => if isDigitC c then let (a, r) := passDigits cs; (c :: a, r) else ([], c :: cs)
+
+/-- regexp.go scanRepeatCount (after the `{` has been passed): counts without their leading zeros,
+    separated by the commas -/
+def scanRepeat : Nat → List Nat → St → St × List Nat
+  | 0, inp, st => (st, inp)
+  | f + 1, inp, st =>
+    let (ds, r) := passDigits (stripZeros inp)
+    match r with
+    | 44 :: r' => scanRepeat f r' (st.emit (ds ++ [44]))
+    | _ => (st.emit ds, r)
+
+/-- `^\x00-\x{10FFFF}]` and `\x00-\x{10FFFF}]` -/
+def fullRange : List Nat := [92, 120, 48, 48, 45, 92, 120, 123, 49, 48, 70, 70, 70, 70, 125, 93]
+
+/-- regexp.go:116-133: scanBracket's entry: `[]` and `[^]` are written as the empty / the full class,
+    anything else goes to the loop -/
+def scanBracket0 (idc : Nat → Bool) (n : Nat) (inp : List Nat) (st : St) : St × List Nat :=
+  match inp with
+  | 93 :: cs => (st.emit (94 :: fullRange), cs)
+  | 94 :: 93 :: cs => (st.emit fullRange, cs)
+  | _ => scanBracket idc n inp st
 
 /-- regexp.go:83-90: the look-ahead test at the start of scanGroup -/
 def lookCheck (inp : List Nat) (st : St) : St :=
@@ -123,11 +158,14 @@ def loop (idc : Nat → Bool) (top : Bool) : Nat → List Nat → St → St × L
       let (st', rest) := loop idc false n cs (lookCheck cs (st.emit [40]))
       loop idc top n rest st'
     else if c = 91 then
-      let (st', rest) := scanBracket idc n cs (st.emit [91])
+      let (st', rest) := scanBracket0 idc n cs (st.emit [91])
       loop idc top n rest st'
     else if c = 41 then
       if top then loop idc true n cs (st.bad.emit [41])            -- Unmatched ')'
       else (st.emit [41], cs)
+    else if c = 123 then
+      let (st', rest) := scanRepeat (cs.length + 1) cs (st.emit [123])
+      loop idc top n rest st'
     else loop idc top n cs (st.emit [c])
 
 inductive TRes
